@@ -4,8 +4,10 @@ CONSTANTS Table <- McTable
  Heavy <- McHeavy
  Probe <- McProbe
  MaxIn <- McMaxIn2p
+ Dirs <- BothDirs
+ CrossProbe = TRUE
  MaxConns = 2
- ProbeAfter = 3
+ ProbeAfter = 4
  MaxFrameK = 25600
  SlackK = 16384
  C = 256
